@@ -75,3 +75,17 @@ def run(chk):
             bad += 1; nm = f'C14/native mutated string {text!r} k={k} context {present}'
             chk.obligation(nm, 'native-vs-classifier', 'violated'); chk.violation(nm, 'panic' if 'panic' in diffs[0] else 'classification', {'text': text, 'k': k, 'present': present, 'differences': diffs}, '; '.join(diffs)[:400])
     if not bad: chk.obligation(f'C14/native {n} grammar-mutated strings x k x context subsets: no panic, Ok/Err as classified', 'native-vs-classifier', 'holds', 0.0, True, {'strings': n})
+    if chk.unexplored:
+        # parts of the symbolic exploration have no verdict on this tree: bounded native enumeration instead (DESIGN.md 3.7)
+        from .. import fallback
+        fallback.grammar(chk, 'C14', signature='classification')
+        texts = [t for t in fallback.text_corpus()[::7]][:1500]
+        bad = 0
+        for i, text in enumerate(texts):
+            k = i % 3 + 1; present = [['w', 'd'], ['w'], []][i % 3]
+            diffs = replay(text, k, present)
+            if diffs:
+                bad += 1; nm = f'C14/native-fallback {text!r} k={k} context {present}'
+                chk.obligation(nm, 'native-fallback', 'violated'); chk.violation(nm, 'panic' if 'panic' in diffs[0] else 'classification', {'text': text, 'k': k, 'present': present, 'differences': diffs}, '; '.join(diffs)[:400])
+                if bad >= 6: break
+        if not bad: chk.obligation(f'C14/native-fallback: {len(texts)} enumerated strings through every string entry point: no panic, Ok/Err as classified', 'native-fallback', 'holds', 0.0, True, {'strings': len(texts), 'kind': 'enumeration, not a solver verdict'})
